@@ -242,6 +242,36 @@ def long_lines(ctx, kind, one):
     ctx.parts = getattr(ctx, "parts", 0) + n
 
 
+class Collect:
+    """stand-in for ctx inside a worker process: collects what run_pipe reports"""
+
+    def __init__(self):
+        self.divergences, self.parts = [], 0
+
+    def divergence(self, what):
+        self.divergences.append(what)
+
+
+def _pipe_job(args):
+    kind, pipe, quick, full = args
+    c = Collect()
+    bad = run_pipe(c, kind, pipe, quick, full)
+    return bad, c.divergences, c.parts
+
+
+def run_pipes(ctx, kind, pipes, full_idx):
+    """message level, spread over worker processes (forked: they share the loaded tree); results come back in order"""
+    import multiprocessing
+    jobs = [(kind, pipe, ctx.quick, i in full_idx) for i, pipe in enumerate(pipes)]
+    with multiprocessing.get_context("fork").Pool(12) as pool:
+        for (kindx, pipe, _, _), (bad, divs, parts) in zip(jobs, pool.imap(_pipe_job, jobs, chunksize=8)):
+            for d in divs:
+                ctx.divergence(d)
+            ctx.parts = getattr(ctx, "parts", 0) + parts
+            if bad:
+                ctx.violation("%s: %s" % ("Requestant" if kind == "req" else "Respondent", bad), {"kind": "message", "side": kind, "pipe": pipe})
+
+
 def run(ctx):
     gen = {"MCLineFrame.tla": "---- MODULE MCLineFrame ----\nEXTENDS LineFrameGen\n" +
            "".join("%s == %s\n" % (k, core.tlaval.to_tla(v)) for k, v in EOLS.items()) + "====\n"}
@@ -296,9 +326,7 @@ def run(ctx):
         for i, pipe in enumerate(one + two):
             ctx.case((kind, tuple(tuple(sorted(m["m"].items())) for m in pipe)),
                      {"kind": kind, "bytes": "".join(t for m in pipe for t in m["tokens"])} if i in (100, len(one) + 5) else None)
-            bad = run_pipe(ctx, kind, pipe, ctx.quick, i in one_full)
-            if bad:
-                ctx.violation("%s: %s" % ("Requestant" if kind == "req" else "Respondent", bad), {"kind": "message", "side": kind, "pipe": pipe})
+        run_pipes(ctx, kind, one + two, one_full)
     ctx.exhaustive = True
     return ctx.finish(rule="line level: one case per (terminator list, string <= %d over {CR, LF, x}, fragmentation); message level: one "
                            "case per message / pipeline (each fed whole, bytewise, in every 1-cut and in 2-cuts around token boundaries)" % ngen,
